@@ -88,6 +88,14 @@ def judge(r, tag, what, info, src_shape, dst_shape, SX, SY, must_empty, exp_scal
     exp_scale2: expected (sx, sy) or None (nothing to compare, e.g. no overlap on a non-linear pair).
     Returns the number of destination pixels that need data.
     """
+    desc = judge_struct(r, tag, what, info, src_shape, dst_shape, must_empty, exp_scale2, rel)
+    if desc is None:
+        return 0
+    return judge_need(r, tag, desc, info, src_shape, SX, SY)
+
+
+def judge_struct(r, tag, what, info, src_shape, dst_shape, must_empty, exp_scale2, rel):
+    """The clauses that do not look at pixels; returns the description of the plan, None when the regions are malformed."""
     nsy, nsx = src_shape
     ndy, ndx = dst_shape
     rs_, rd_ = info.roi_src, info.roi_dst
@@ -112,7 +120,7 @@ def judge(r, tag, what, info, src_shape, dst_shape, SX, SY, must_empty, exp_scal
     # -- regions are well formed and inside their images --------------------------------------
     if not (_roi_ok(rs_) and _roi_ok(rd_)):
         r.fail(f"reproject_roi:roi-malformed:{tag}", desc)
-        return 0
+        return None
     lim = rsk if rs_good else 1
     for ax, s, n in (("y", rs_[0], nsy), ("x", rs_[1], nsx)):
         if not (0 <= s.start <= s.stop <= _aup(n, lim)):
@@ -124,14 +132,21 @@ def judge(r, tag, what, info, src_shape, dst_shape, SX, SY, must_empty, exp_scal
     # -- separated by more than the padding margin => zero area --------------------------------
     if must_empty and not (_area0(rs_) and _area0(rd_)):
         r.fail(f"reproject_roi:separated-but-nonempty:{tag}", desc)
+    return desc
 
-    # -- completeness: brute force over every destination pixel --------------------------------
+
+def judge_need(r, tag, desc, info, src_shape, SX, SY, origin=(0, 0)):
+    """Completeness: brute force over the destination pixels whose centres map to (SX, SY); the arrays cover the
+    destination window that starts at pixel `origin` = (row, col).  Returns the number of pixels that need data."""
+    nsy, nsx = src_shape
+    rs_, rd_ = info.roi_src, info.roi_dst
     fin = np.isfinite(SX) & np.isfinite(SY)
     with np.errstate(invalid="ignore"):
         need = fin & (SX > EPS) & (SX < nsx - EPS) & (SY > EPS) & (SY < nsy - EPS)
     n_need = int(need.sum())
     if n_need:
         iy, ix = np.nonzero(need)
+        iy, ix = iy + origin[0], ix + origin[1]
         sx, sy = SX[need], SY[need]
         for ax, idx, s in (("y", iy, rd_[0]), ("x", ix, rd_[1])):
             for side, bad in (("lo", idx < s.start), ("hi", idx >= s.stop)):
@@ -1155,6 +1170,316 @@ def run_curv(case):
 
 
 # =================================================================================================
+# spaces "sliver" and "ratio": large rasters whose edge is CURVED in the other raster's pixel plane
+# =================================================================================================
+# The planner bounds a curved edge by sampling it.  Whatever the number of samples is derived from, the class where too few
+# samples lose pixels is: the extreme point (apex) of a curved edge lies BETWEEN two samples and the other raster's image
+# ends inside the lens between the curve and the chord through the samples ("sliver"), or the curve is long when measured
+# in the pixels of the FINER raster ("ratio").  Both spaces enumerate the position of the apex along the edge in 32nds of
+# the edge (the k/4, k/8, k/16 sample positions of 5, 9, 17 points per side and the midpoints between them).
+#
+# Oracle: brute force over the destination pixel centres through the harness' own transformer, restricted to the window
+# of the destination that can need data at all: the bounding box (+2 px) in the destination pixel plane of the source
+# image's boundary sampled once per source pixel (the image of the source rectangle under the continuous, one-to-one map
+# is bounded by the image of its boundary).  Restricting the set of judged pixels can never create a violation.
+def judge_curved(r, tag, what, info, sshape, sA6, dshape, dA6, es, ed, pad, al, rel=1e-3, block=1 << 20):
+    """-> (pixels needing data, pixels judged, emptiness clause applies)"""
+    nsy, nsx = sshape
+    ndy, ndx = dshape
+    # separation: envelope in the source plane of the destination boundary, one sample per destination pixel
+    bx, by = dst_to_src(sA6, dA6, es, ed, *_boundary(dshape, 1))
+    must_empty = False
+    if np.isfinite(bx).all() and np.isfinite(by).all():
+        ax_ = (_aup(nsx, al) - nsx) if al else 0
+        ay_ = (_aup(nsy, al) - nsy) if al else 0
+        must_empty = max(-float(bx.max()), float(bx.min()) - nsx - ax_, -float(by.max()), float(by.min()) - nsy - ay_) > _peff(pad) + 0.01
+    exp = None
+    if _roi_ok(info.roi_dst) and not _area0(info.roi_dst):
+        cy_ = (info.roi_dst[0].start + info.roi_dst[0].stop) / 2
+        cx_ = (info.roi_dst[1].start + info.roi_dst[1].stop) / 2
+        px, py = dst_to_src(sA6, dA6, es, ed, [cx_ + 1, cx_ - 1, cx_, cx_], [cy_, cy_, cy_ + 1, cy_ - 1])
+        if np.isfinite(px).all() and np.isfinite(py).all():
+            c0 = ((px[0] - px[1]) / 2, (py[0] - py[1]) / 2)
+            c1 = ((px[2] - px[3]) / 2, (py[2] - py[3]) / 2)
+            n0 = math.hypot(*c0)
+            if n0 > 0:
+                exp = (n0, abs(c0[0] * c1[1] - c0[1] * c1[0]) / n0)
+    desc = judge_struct(r, tag, what, info, sshape, dshape, must_empty, exp, rel)
+    if desc is None:
+        return 0, 0, must_empty
+    # window of the destination that can need data
+    qx, qy = dst_to_src(dA6, sA6, ed, es, *_boundary(sshape, 1))
+    if np.isfinite(qx).all() and np.isfinite(qy).all():
+        c0_, c1_ = max(0, math.floor(float(qx.min())) - 2), min(ndx, math.ceil(float(qx.max())) + 2)
+        r0_, r1_ = max(0, math.floor(float(qy.min())) - 2), min(ndy, math.ceil(float(qy.max())) + 2)
+    else:
+        c0_, c1_, r0_, r1_ = 0, ndx, 0, ndy
+    n_need = n_judged = 0
+    if c1_ > c0_ and r1_ > r0_:
+        xs = np.arange(c0_, c1_) + 0.5
+        step = max(1, block // (c1_ - c0_))
+        for ra in range(r0_, r1_, step):
+            rb = min(r1_, ra + step)
+            yy, xx = np.meshgrid(np.arange(ra, rb) + 0.5, xs, indexing="ij")
+            SX, SY = dst_to_src(sA6, dA6, es, ed, xx, yy)
+            n_need += judge_need(r, tag, desc, info, sshape, SX, SY, origin=(ra, c0_))
+            n_judged += SX.size
+    return n_need, n_judged, must_empty
+
+
+def _edge_px(shape, edge, per_px=1):
+    """pixel coordinates along one edge of a raster, in the order of growing x (top, bottom) / growing y (left, right)"""
+    ny, nx = shape
+    if edge in ("top", "bottom"):
+        t = np.linspace(0, nx, nx * per_px + 1)
+        return t, np.full_like(t, 0.0 if edge == "top" else ny)
+    t = np.linspace(0, ny, ny * per_px + 1)
+    return np.full_like(t, 0.0 if edge == "left" else nx), t
+
+
+def _to_crs(e_from, e_to, x, y):
+    if e_from == e_to:
+        return np.asarray(x, dtype="float64"), np.asarray(y, dtype="float64")
+    ux, uy = fresh_tr(e_from, e_to).transform(x, y)
+    return np.asarray(ux, dtype="float64"), np.asarray(uy, dtype="float64")
+
+
+def _local_px(A6, e_from, e_to, shape):
+    """size (geometric mean of the two axes) of one pixel of the raster, measured at its centre in units of CRS e_to"""
+    ny, nx = shape
+    wx, wy = pix_to_world(A6, np.asarray([nx / 2, nx / 2 + 1, nx / 2]), np.asarray([ny / 2, ny / 2, ny / 2 + 1]))
+    ux, uy = _to_crs(e_from, e_to, wx, wy)
+    v1, v2 = (ux[1] - ux[0], uy[1] - uy[0]), (ux[2] - ux[0], uy[2] - uy[0])
+    return math.sqrt(abs(v1[0] * v2[1] - v1[1] * v2[0]))
+
+
+EDGES = ("top", "bottom", "left", "right")
+
+# -------------------------------------------------------------------------------------------------
+# sliver: curved raster C (2000 x 3000) and a probe raster P placed so that it reaches `depth` of its own pixels beyond the
+# apex of one edge of C, i.e. the two overlap in a thin lens along that edge (depth < 0: a gap of that many pixels)
+# -------------------------------------------------------------------------------------------------
+CFG_S = {  # name: (epsg a, epsg b, lon/lat window when the anchor meridian is in the middle, anchor meridian)
+    "geo|albers-au": (4326, 3577, (117.0, 147.0, -40.0, -20.0), 132.0),
+    "geo|laea-eu": (4326, 3035, (-5.0, 25.0, 42.0, 64.0), 10.0),
+    "geo|utm33": (4326, 32633, (9.0, 21.0, 48.0, 66.0), 15.0),
+    "merc|albers-au": (3857, 3577, (117.0, 147.0, -40.0, -20.0), 132.0),
+    "utm55|albers-au": (32755, 3577, (141.0, 153.0, -40.0, -22.0), 147.0),
+    "geo|nztm": (4326, 2193, (167.0, 179.0, -47.0, -34.0), 173.0),
+}
+C_SHAPE = (2000, 3000)
+P_SHAPES = {"small": (48, 256), "large": (1000, 2000)}  # (across the shared edge, along it)
+DEPTHS_S = (-3.0, -0.4, 0.6, 1.1, 1.6, 2.3, 3.8, 6.2, 10.4)
+T32_ALL = tuple(range(1, 32))
+T32_ODD = tuple(range(1, 32, 2))
+# 16 positions, none on a sample of a 5-point ring (k/4): the midpoints between the samples of 5, 9 and (four of) 17 points per side
+T32_QUICK = (4, 12, 20, 28, 2, 6, 10, 14, 18, 22, 26, 30, 3, 13, 21, 27)
+
+
+@functools.lru_cache(maxsize=8)
+def _curved_C(cfg, cside, t32):
+    """C: north-up raster in CRS c over the window slid so that the anchor meridian is at t32/32 of its width;
+    -> (ec, ep, shape, affine6, {edge: boundary of C along that edge in CRS p, one point per pixel})"""
+    ea, eb, win, anchor = CFG_S[cfg]
+    ec, ep = (ea, eb) if cside == "a" else (eb, ea)
+    lon0, lon1, lat0, lat1 = win
+    w = lon1 - lon0
+    cwin = (anchor - t32 / 32 * w, anchor + (1 - t32 / 32) * w, lat0, lat1)
+    cshape, cA6 = window_raster(ec, cwin, C_SHAPE)
+    edges = {}
+    for e in EDGES:
+        edges[e] = _to_crs(ec, ep, *pix_to_world(cA6, *_edge_px(cshape, e)))
+    return ec, ep, cshape, cA6, edges
+
+
+def build_sliver(cfg, cside, edge, t32, mode, kpx, psize, depth):
+    """-> (ec, C shape, C affine6, ep, P shape, P affine6, apex class, shortfall of a 5-point ring at the apex in P pixels)"""
+    ec, ep, cshape, cA6, edges = _curved_C(cfg, cside, t32 if mode == "north-up" else 16)
+    u = kpx * _local_px(cA6, ec, ep, cshape)
+    ex_, ey_ = edges[edge]
+    n = len(ex_) - 1
+    if mode == "north-up":
+        th = 0.0
+    else:  # P is turned so that its facing edge is parallel to C's edge at t32/32 of that edge
+        i = min(max(round(t32 / 32 * n), 1), n - 1)
+        dx, dy = float(ex_[i + 1] - ex_[i - 1]), float(ey_[i + 1] - ey_[i - 1])
+        th = math.atan2(dy, dx) if edge in ("top", "bottom") else math.atan2(dx, -dy)
+    ct, st = math.cos(th), math.sin(th)
+    # P's frame: a along its pixel x axis (ct, st), b along its pixel y axis (st, -ct), world units of CRS p
+    allx = np.concatenate([edges[e][0] for e in EDGES])
+    ally = np.concatenate([edges[e][1] for e in EDGES])
+    eid = np.concatenate([np.full(len(edges[e][0]), k) for k, e in enumerate(EDGES)])
+    frac = np.concatenate([np.linspace(0, 1, len(edges[e][0])) for e in EDGES])
+    a, b = allx * ct + ally * st, allx * st - ally * ct
+    # the same points as a ring of 5 per side would see them (every quarter of each edge)
+    q = np.concatenate([np.round(np.linspace(0, len(edges[e][0]) - 1, 5)).astype(int) + off
+                        for e, off in zip(EDGES, np.cumsum([0] + [len(edges[e][0]) for e in EDGES[:-1]]))])
+    ph, pw = P_SHAPES[psize]
+    if edge in ("left", "right"):
+        ph, pw = pw, ph
+    if edge == "top":
+        j = int(np.argmin(b))
+        oa, ob = a[j] - pw / 2 * u, b[j] + depth * u - ph * u
+        short = (float(b[q].min()) - b[j]) / u
+    elif edge == "bottom":
+        j = int(np.argmax(b))
+        oa, ob = a[j] - pw / 2 * u, b[j] - depth * u
+        short = (b[j] - float(b[q].max())) / u
+    elif edge == "left":
+        j = int(np.argmin(a))
+        oa, ob = a[j] + depth * u - pw * u, b[j] - ph / 2 * u
+        short = (float(a[q].min()) - a[j]) / u
+    else:
+        j = int(np.argmax(a))
+        oa, ob = a[j] - depth * u, b[j] - ph / 2 * u
+        short = (a[j] - float(a[q].max())) / u
+    ox, oy = oa * ct + ob * st, oa * st - ob * ct
+    pA6 = (u * ct, u * st, ox, u * st, -u * ct, oy)
+    f = float(frac[j])
+    if EDGES[int(eid[j])] != edge or min(f, 1 - f) < 1 / 128:
+        apex = "apex-at-corner"
+    elif abs(f * 4 - round(f * 4)) < 1 / 32:
+        apex = "apex-at-quarter-point"
+    else:
+        apex = "apex-between-quarter-points"
+    return ec, cshape, cA6, ep, (ph, pw), pA6, apex, short
+
+
+def gen_sliver(thorough):
+    if thorough:
+        for cfg in CFG_S:
+            for cside in ("a", "b"):
+                for mode, edges, ts in (("north-up", ("top", "bottom"), T32_ALL), ("turned", EDGES, T32_ODD)):
+                    for edge in edges:
+                        for t32 in ts:
+                            for depth in DEPTHS_S:
+                                for direction in ("C-dst", "C-src"):
+                                    for psize, kpx, padal in (("small", 0.5, ((None, None), (0, None), (2, None), (None, 16))),
+                                                              ("large", 0.5, ((None, None), (0, None))), ("large", 2.0, ((None, None),))):
+                                        for pad, al in padal:
+                                            yield (cfg, cside, edge, t32, mode, kpx, psize, depth, direction, pad, al)
+    else:
+        for cfg in ("geo|albers-au", "geo|laea-eu", "merc|albers-au"):
+            for cside in ("a", "b"):
+                for mode, edges, ts in (("north-up", ("top", "bottom"), T32_QUICK), ("turned", ("top", "left"), T32_QUICK[:8:2])):
+                    for edge in edges:
+                        for t32 in ts:
+                            for depth in (-3.0, 1.1, 2.3, 3.8, 6.2):
+                                for direction in ("C-dst", "C-src"):
+                                    for psize, kpx, pad, al in (("large", 0.5, None, None), ("small", 0.5, 0, None)):
+                                        yield (cfg, cside, edge, t32, mode, kpx, psize, depth, direction, pad, al)
+
+
+def run_sliver(case):
+    cfg, cside, edge, t32, mode, kpx, psize, depth, direction, pad, al = case
+    ec, cshape, cA6, ep, pshape, pA6, apex, short = build_sliver(cfg, cside, edge, t32, mode, kpx, psize, depth)
+    if direction == "C-dst":
+        (sshape, sA6, es), (dshape, dA6, ed) = (pshape, pA6, ep), (cshape, cA6, ec)
+    else:
+        (sshape, sA6, es), (dshape, dA6, ed) = (cshape, cA6, ec), (pshape, pA6, ep)
+    src, dst = GeoBox(sshape, Affine(*sA6), f"EPSG:{es}"), GeoBox(dshape, Affine(*dA6), f"EPSG:{ed}")
+    kw = {}
+    if pad is not None:
+        kw["padding"] = pad
+    if al is not None:
+        kw["align"] = al
+    info = OV.compute_reproject_roi(src, dst, **kw)
+    lens = "gap" if depth < 0 else ("inside-5pt-lens" if depth < short else "beyond-5pt-chord")
+    tag = f"sliver:{direction}:{mode}:{apex}:{lens}:pad={pad}:align={al}"
+    what = (f"src=GeoBox({sshape}, Affine{sA6}, EPSG:{es}); dst=GeoBox({dshape}, Affine{dA6}, EPSG:{ed}); compute_reproject_roi(src, dst, {kw}) "
+            f"[{cfg}: the {'source' if direction == 'C-src' else 'destination'} is the large raster; the other one reaches {depth} of its pixels beyond "
+            f"the outermost point of the large raster's {edge} edge, which a ring of 5 points per side underestimates by {short:.2f} px]")
+    r = R()
+    n_need, _, must_empty = judge_curved(r, tag, what, info, sshape, sA6, dshape, dA6, es, ed, pad, al)
+    r.outcome = f"sliver:{cfg}:{cside}:{direction}:{mode}:{edge}:{apex}:{lens}:{_cover(info, dshape, n_need)}"
+    r.nontrivial = n_need > 0 or must_empty
+    return r
+
+
+# -------------------------------------------------------------------------------------------------
+# ratio: a coarse raster K (400 x 400) whose top / bottom edge is curved in the pixel plane of a raster F that contains
+# that edge and whose pixels are 1/3, 1/10, 1/17 of K's; both directions (up-sampling K -> F, down-sampling F -> K)
+# -------------------------------------------------------------------------------------------------
+CFG_R = {  # name: (K epsg, F epsg, K pixel, K's x coordinate of the axis of symmetry, y of K's top edge)
+    "laea-eu>geo": (3035, 4326, 5000.0, 4321000.0, 4210000.0),
+    "albers-au>geo": (3577, 4326, 8000.0, 0.0, -1200000.0),
+    "utm33>geo": (32633, 4326, 2500.0, 500000.0, 7000000.0),
+    "geo>albers-au": (4326, 3577, 0.08, 132.0, -12.0),
+    "geo>laea-eu": (4326, 3035, 0.06, 10.0, 66.0),
+    "merc>albers-au": (3857, 3577, 9000.0, 14694272.8, -1360000.0),
+}
+K_SHAPE = (400, 400)
+RATIOS = {"1/3": 1 / 3, "1/10": 1 / 10, "1/17": 1 / 17}
+F_MARGIN = 40  # F reaches this many of its pixels beyond the outermost / innermost point of K's edge
+F_MAX_ROWS = 1500
+
+
+def build_ratio(cfg, edge, t32, ratio):
+    ek, ef, px, axis, top = CFG_R[cfg]
+    ny, nx = K_SHAPE
+    kA6 = (px, 0.0, axis - t32 / 32 * nx * px, 0.0, -px, top)
+    u = RATIOS[ratio] * _local_px(kA6, ek, ef, K_SHAPE)
+    wx, wy = _to_crs(ek, ef, *pix_to_world(kA6, *_edge_px(K_SHAPE, edge, 4)))
+    x0, x1 = float(wx.min()), float(wx.max())
+    x0, x1 = x0 - 0.03 * (x1 - x0), x1 + 0.03 * (x1 - x0)
+    y0, y1 = float(wy.min()) - F_MARGIN * u, float(wy.max()) + F_MARGIN * u
+    fnx = math.ceil((x1 - x0) / u)
+    fny = min(F_MAX_ROWS, math.ceil((y1 - y0) / u))
+    if edge == "bottom":  # keep the outer side when the band is cut
+        y1 = y0 + fny * u
+    fA6 = (u, 0.0, x0, 0.0, -u, y1)
+    # where along K's edge its outermost point (seen from F) lies, and how far the edge bulges in F pixels
+    j = int(np.argmax(wy) if edge == "top" else np.argmin(wy))
+    f = j / (len(wy) - 1)
+    bulge = (float(wy.max()) - float(wy.min())) / u
+    apex = "apex-at-corner" if min(f, 1 - f) < 1 / 128 else ("apex-at-eighth-point" if abs(f * 8 - round(f * 8)) < 1 / 32 else "apex-between-eighth-points")
+    return ek, K_SHAPE, kA6, ef, (fny, fnx), fA6, apex, bulge
+
+
+def gen_ratio(thorough):
+    if thorough:
+        for cfg in CFG_R:
+            for edge in ("top", "bottom"):
+                for ratio in RATIOS:
+                    for t32 in (T32_ALL if ratio != "1/17" else T32_ALL[1::2]):
+                        for direction in ("K->F", "F->K"):
+                            for pad, al in ((None, None), (0, None)):
+                                yield (cfg, edge, t32, ratio, direction, pad, al)
+    else:
+        for cfg, edge in (("laea-eu>geo", "top"), ("albers-au>geo", "bottom"), ("geo>albers-au", "top")):
+            for ratio, ts in (("1/3", T32_QUICK), ("1/10", T32_QUICK[:12]), ("1/17", (6, 14, 18))):
+                for t32 in ts:
+                    for direction in ("K->F", "F->K"):
+                        yield (cfg, edge, t32, ratio, direction, None, None)
+
+
+def run_ratio(case):
+    cfg, edge, t32, ratio, direction, pad, al = case
+    ek, kshape, kA6, ef, fshape, fA6, apex, bulge = build_ratio(cfg, edge, t32, ratio)
+    if direction == "K->F":
+        (sshape, sA6, es), (dshape, dA6, ed) = (kshape, kA6, ek), (fshape, fA6, ef)
+    else:
+        (sshape, sA6, es), (dshape, dA6, ed) = (fshape, fA6, ef), (kshape, kA6, ek)
+    src, dst = GeoBox(sshape, Affine(*sA6), f"EPSG:{es}"), GeoBox(dshape, Affine(*dA6), f"EPSG:{ed}")
+    kw = {}
+    if pad is not None:
+        kw["padding"] = pad
+    if al is not None:
+        kw["align"] = al
+    info = OV.compute_reproject_roi(src, dst, **kw)
+    bc = "bulge>100px" if bulge > 100 else "bulge-20-100px" if bulge > 20 else "bulge<20px"
+    tag = f"ratio:{direction}:{ratio}:{apex}:pad={pad}:align={al}"
+    what = (f"src=GeoBox({sshape}, Affine{sA6}, EPSG:{es}); dst=GeoBox({dshape}, Affine{dA6}, EPSG:{ed}); compute_reproject_roi(src, dst, {kw}) "
+            f"[{cfg}: the {'destination' if direction == 'K->F' else 'source'} has pixels {ratio} of the other raster's and contains its {edge} edge, "
+            f"which bulges by {bulge:.1f} of the finer pixels]")
+    r = R()
+    n_need, _, must_empty = judge_curved(r, tag, what, info, sshape, sA6, dshape, dA6, es, ed, pad, al)
+    r.outcome = f"ratio:{cfg}:{edge}:{direction}:{ratio}:{apex}:{bc}:rs{min(int(info.read_shrink), 4)}:{_cover(info, dshape, n_need)}"
+    r.nontrivial = n_need > 0 or must_empty
+    return r
+
+
+# =================================================================================================
 # space E: the same rasters given in other encodings (CRS spellings, numpy shapes, int / -0.0 affines)
 # =================================================================================================
 UTM33_PROJ4 = "+proj=utm +zone=33 +datum=WGS84 +units=m +no_defs"
@@ -1491,6 +1816,14 @@ def slices(tier):
         e1.Slice("B-curvature", lambda: gen_curv(th), run_curv,
                  "600-1000 px rasters in LAEA / Albers / UTM far from the meridian / Mercator vs lon/lat over the same window, both "
                  "directions: edges bulge by several pixels between five boundary samples"),
+        e1.Slice("B-sliver", lambda: gen_sliver(th), run_sliver,
+                 "2000x3000 raster C (lon/lat, Mercator, Albers, LAEA, UTM, NZTM) and a raster in another CRS that reaches 0.6 .. 10.4 of its "
+                 "pixels beyond the outermost point of one curved edge of C (or stays 0.4 / 3 px short of it): overlap is a thin lens; "
+                 "apex of the edge at k/32 of its length (window slid along the edge, or the other raster turned parallel to the edge "
+                 "at that point), C as source and as destination; brute force over the destination window that can need data"),
+        e1.Slice("B-ratio", lambda: gen_ratio(th), run_ratio,
+                 "400x400 raster K whose top / bottom edge is curved in the plane of a raster F with pixels 1/3, 1/10, 1/17 of K's "
+                 "that contains the edge (F up to 1500 x 7500), K slid so that the apex is at k/32 of the edge, up- and down-sampling"),
         e1.Slice("G-overhang", gen_G, run_G,
                  "lon/lat rasters (2.5/5/10 deg, <= 48x96) overhanging the poles and/or +-180 by half a pixel or several, as source "
                  "and as destination, against world rasters in EPSG:4087, 6933, 8857, Mollweide, 3857: the documented lon/lat clamp"),
